@@ -29,6 +29,8 @@ type ReplayFile struct {
 	ShrinkRuns int     `json:"shrink_runs"`
 	Sample    string   `json:"sample"`
 	Trace     []string `json:"trace"`
+	Prelude   bool     `json:"prelude,omitempty"`
+	Shard     int      `json:"shard,omitempty"`
 }
 
 func firstSig(r *Result) string {
@@ -178,6 +180,37 @@ func TestSim(t *testing.T) {
 		defer out.Close()
 	}
 	shrunk := map[string]bool{}
+	emit := func(rec interface{}) {
+		js, _ := json.Marshal(rec)
+		if out != nil {
+			out.Write(append(js, '\n'))
+		} else {
+			fmt.Println(string(js))
+		}
+	}
+	if pre := Preludes[prop]; pre != nil {
+		shard := int(start / uint64(max(count, 1)))
+		t0 := time.Now()
+		res := pre(tier, shard)
+		res.Shard = shard
+		res.Seed = start
+		res.WallMs = time.Since(t0).Milliseconds()
+		type outRec struct {
+			*Result
+			Replay string `json:"replay,omitempty"`
+		}
+		rec := outRec{Result: res}
+		if sig := firstSig(res); sig != "" && rdir != "" {
+			rf := ReplayFile{Property: prop, Tier: tier, Seed: start, Signature: sig, Oracle: res.Violations[0].Oracle, Detail: res.Violations[0].Detail, Prelude: true, Shard: shard, Sample: res.Sample}
+			h := sha256.Sum256([]byte(sig))
+			path := filepath.Join(rdir, fmt.Sprintf("%s-prelude%d-%x.json", prop, shard, h[:4]))
+			_ = os.MkdirAll(rdir, 0o755)
+			js, _ := json.MarshalIndent(rf, "", " ")
+			_ = os.WriteFile(path, js, 0o644)
+			rec.Replay = path
+		}
+		emit(rec)
+	}
 	for i := 0; i < count; i++ {
 		if deadline > 0 && time.Now().Unix() >= deadline {
 			break
@@ -198,12 +231,7 @@ func TestSim(t *testing.T) {
 			rec.Replay = writeReplay(t, rdir, res, tier, !shrunk[sig] && len(shrunk) < 3)
 			shrunk[sig] = true
 		}
-		js, _ := json.Marshal(rec)
-		if out != nil {
-			out.Write(append(js, '\n'))
-		} else {
-			fmt.Println(string(js))
-		}
+		emit(rec)
 	}
 }
 
@@ -218,7 +246,13 @@ func replayMain(t *testing.T, path string) {
 		fmt.Printf("REPLAY-ERROR bad replay file: %v\n", err)
 		return
 	}
-	res := RunOne(t, rf.Property, rf.Seed, rf.Choices, rf.Tier, true)
+	var res *Result
+	if rf.Prelude {
+		res = Preludes[rf.Property](rf.Tier, rf.Shard)
+		res.LogHash = rf.LogHash
+	} else {
+		res = RunOne(t, rf.Property, rf.Seed, rf.Choices, rf.Tier, true)
+	}
 	if os.Getenv("SIM_LOG") != "" {
 		for _, l := range res.Log {
 			fmt.Println(l)
